@@ -24,7 +24,7 @@ ASSUMPTIONS = [
     "(per register: inside one area before default acceptable)",
 ]
 TRUSTED = ["correspondence harness harness/h_regtable.c + tools/lib/vf.py"]
-DESIGN_REF = "DESIGN.md section 8, C04"
+DESIGN_REF = "DESIGN.md section 0.2 (as built) and section 8, C04"
 TECHNIQUE = "Lean 4 proofs over the register-table model (loop invariant of the default-loading loop: initialisation succeeds exactly on the well-formed descriptions, otherwise names the first violated rule; uninitialised guard of every operation; post-state incl. per-area register runs) + enumerated table descriptions in the differential correspondence"
 LEVEL_TEXT = ("Machine-checked proof over the Lean model of register_init, for every description: init_success_iff - it succeeds exactly when there is at least one area, "
               "areas and registers are ascending and non-overlapping, every register lies wholly inside one area and every default that gets loaded is acceptable; "
